@@ -607,6 +607,15 @@ func H_C05_hist() {
 		cp := l.GetEntries()
 		cp.Set("bogus", &entry.Entry{Hash: vx.Cid(90), LogID: "X"})
 		vx.Assert("C05", l.Len() == n && l.GetEntries().Len() == n, "mutating the map returned by GetEntries() does not change the log")
+		// the same for the linearised view and the heads: what the accessors return is the caller's to modify
+		vals := payloads(l.Values().Slice())
+		vm := l.Values()
+		vm.Reverse()
+		vm.Set("bogus", &entry.Entry{Hash: vx.Cid(91), LogID: "X"})
+		hm := l.Heads()
+		hm.Set("bogus", &entry.Entry{Hash: vx.Cid(92), LogID: "X"})
+		vx.Assert("C05", payloads(l.Values().Slice()) == vals && l.Values().Len() == n && l.Heads().Len() == len(hashSet(l.Heads().Slice())) && !hashSet(l.Heads().Slice())[vx.Cid(92).String()],
+			"mutating what Values() or Heads() returned does not change the log")
 	})
 }
 
@@ -722,13 +731,20 @@ func H_C02_partial() {
 		o.Heads = []iface.IPFSLogEntry{chain[N-1]}
 	}
 	P := newLogOpt(h.api, h.writerOf(0), o)
-	propOverride = "C02"
+	propOverride = []string{"C02", "C01"}[vx.Param("AS", 0)] // merging a replica whose entries the log already holds changes nothing (C01), heads stay exact (C02)
 	checkHeads(P, "partial log")
+	if vx.Choice("appendFirst", 2) == 1 {
+		// the log opened from entries is appended to before it ever merges anything
+		if _, err := P.Append(ctx, []byte("first"), nil); err != nil {
+			panic(err)
+		}
+		checkHeads(P, "log opened from entries, after an append")
+	}
 	_, err := P.Join(stale, -1)
-	vx.Assert("C02", err == nil, "merging an older replica into a partial log succeeds")
+	vx.Assert(pp("C02"), err == nil, "merging an older replica into a partial log succeeds")
 	checkHeads(P, "partial log after merging an older replica")
 	e, err := P.Append(ctx, []byte("next"), nil)
-	vx.Assert("C02", err == nil && e != nil, "appending to the partial log succeeds")
+	vx.Assert(pp("C02"), err == nil && e != nil, "appending to the partial log succeeds")
 	if err == nil {
 		checkHeads(P, "partial log after merge and append")
 	}
